@@ -341,6 +341,76 @@ pub fn run_c14(tier: &str) -> i32 {
         v(&mut rep, "range-keys", "range parsed from all ordered pair texts".into(), json!({}), json!([1326, 2652]), res(&r2));
     }
     rep.sub("range-keys", "a HandRange collected from all 2,652 ordered pairs, and one parsed from all 2,652 ordered pair texts, hold exactly 1,326 keys, each found by looking up new(a,b) in either order", 2652 * 2, 1326, true, json!({}));
+    // every pair value the library itself hands out is in canonical form: rank-pair expansion (the enum is
+    // public, either rank order), token expansion (either spelling), keys of parsed ranges
+    {
+        use espada::hand_range::{HandRangeToken, RankPair};
+        let mut n = 0u64;
+        let mut problems: Vec<(String, String)> = vec![];
+        let check_pairs = |what: String, pairs: Vec<CardPair>, expect_len: Option<usize>, problems: &mut Vec<(String, String)>| {
+            let mut seen = std::collections::BTreeSet::new();
+            for cp in &pairs {
+                let canon = CardPair::new(cp[0], cp[1]);
+                if !(cp[0] < cp[1]) || *cp != canon || h_default(cp) != h_default(&canon) {
+                    problems.push((what.clone(), format!("hands out the pair ({:?},{:?}) which is not in canonical form", cp[0], cp[1])));
+                    return;
+                }
+                seen.insert(Combo::of(cp));
+            }
+            if seen.len() != pairs.len() {
+                problems.push((what.clone(), "hands out the same combo twice".into()));
+            }
+            if let Some(l) = expect_len {
+                if pairs.len() != l {
+                    problems.push((what, format!("hands out {} pairs, expected {}", pairs.len(), l)));
+                }
+            }
+        };
+        for a in 0..13usize {
+            n += 1;
+            let r = catch(move || RankPair::Pocket(RANKS[a]).into_iter().collect::<Vec<_>>());
+            match r {
+                Ok(v) => check_pairs(format!("RankPair::Pocket({})", RANK_CHARS[a]), v, Some(6), &mut problems),
+                Err(e) => problems.push((format!("RankPair::Pocket({})", RANK_CHARS[a]), format!("panic: {}", e))),
+            }
+            for b in 0..13usize {
+                if a == b {
+                    continue;
+                }
+                for suited in [true, false] {
+                    n += 1;
+                    let what = format!("RankPair::{}({},{})", if suited { "Suited" } else { "Ofsuit" }, RANK_CHARS[a], RANK_CHARS[b]);
+                    let r = catch(move || if suited { RankPair::Suited(RANKS[a], RANKS[b]) } else { RankPair::Ofsuit(RANKS[a], RANKS[b]) }.into_iter().collect::<Vec<_>>());
+                    match r {
+                        Ok(v) => check_pairs(what, v, Some(if suited { 4 } else { 12 }), &mut problems),
+                        Err(e) => problems.push((what, format!("panic: {}", e))),
+                    }
+                    // the same through the notation, either spelling
+                    let text = format!("{}{}{}", RANK_CHARS[a], RANK_CHARS[b], if suited { "s" } else { "o" });
+                    n += 1;
+                    let t2 = text.clone();
+                    let r = catch(move || t2.parse::<HandRangeToken>().ok().map(|t| t.into_iter().map(|(cp, _)| cp).collect::<Vec<_>>()));
+                    if let Ok(Some(v)) = r {
+                        check_pairs(format!("token {}", text), v, None, &mut problems);
+                    }
+                    let both = format!("{},{}{}{}", text, RANK_CHARS[b], RANK_CHARS[a], if suited { "s" } else { "o" });
+                    let b2 = both.clone();
+                    let r = catch(move || b2.parse::<HandRange>().ok().map(|r| r.card_pairs().keys().cloned().collect::<Vec<_>>()));
+                    if let Ok(Some(v)) = r {
+                        let l = v.len();
+                        check_pairs(format!("range {}", both), v, None, &mut problems);
+                        if l != 0 && l != if suited { 4 } else { 12 } {
+                            problems.push((format!("range {}", both), format!("holds {} keys for one rank pair spelled both ways", l)));
+                        }
+                    }
+                }
+            }
+        }
+        for (what, p) in problems {
+            v(&mut rep, "handed-out-pairs", what.clone(), json!({"source": what}), json!("canonical pairs, each combo once"), json!(p));
+        }
+        rep.sub("handed-out-pairs", "every CardPair the library hands out: RankPair::into_iter for all 13 + 156 + 156 enum values (either rank order), the expansion of every single rank-pair token in either spelling, and the keys of a range holding one rank pair spelled both ways: first element orders first, equal to new(a,b), no combo twice", n, 13 + 312, true, json!({}));
+    }
     rep.sample(json!({"new(Ks,As)": CardPair::new(all[4], all[0]).to_string(), "new(As,Ks)": CardPair::new(all[0], all[4]).to_string()}));
     rep.finish()
 }
